@@ -2,6 +2,7 @@ package wops
 
 import (
 	"fmt"
+	"io"
 
 	"github.com/gobwas/ws/wsutil"
 
@@ -76,6 +77,17 @@ func (m *Model) After(op Op, res Result, bufferedBefore, sizeBefore int) *Viol {
 		// and must leave with the message; the source's error is passed on.
 		if res.Err != xport.ErrInjected || res.N != int64(res.K) {
 			return v("ret/ReadFromErr", "ReadFrom from a source failing after %d bytes returned (%d, %v), want (%d, the source's error)", res.K, res.N, res.Err, res.K)
+		}
+		m.Accepted += int(res.N)
+		if res.N > 0 {
+			m.MsgOpen = true
+		}
+		m.plainOnly, m.writeOnly = false, false
+	case ReadFromStall:
+		// the source stops making progress after res.K bytes: those were accepted and must
+		// leave with the message; ReadFrom gives up with io.ErrNoProgress.
+		if res.Err != io.ErrNoProgress || res.N != int64(res.K) {
+			return v("ret/ReadFromStall", "ReadFrom from a source stalling after %d bytes returned (%d, %v), want (%d, io.ErrNoProgress)", res.K, res.N, res.Err, res.K)
 		}
 		m.Accepted += int(res.N)
 		if res.N > 0 {
@@ -165,7 +177,7 @@ func (m *Model) After(op Op, res Result, bufferedBefore, sizeBefore int) *Viol {
 		if m.NoFlush && len(fresh) > 0 {
 			return v("noflush/write-sends", "Write sent %d frame(s) although flushing is disabled", len(fresh))
 		}
-	case ReadFrom, ReadFromErr:
+	case ReadFrom, ReadFromErr, ReadFromStall:
 		if m.NoFlush && len(fresh) > 0 {
 			return v("noflush/readfrom-sends", "ReadFrom sent %d frame(s) although flushing is disabled", len(fresh))
 		}
